@@ -37,6 +37,7 @@ var oraclesFor = map[string]Oracles{
 	"C07": {CollEveryStep: true, StoreEveryStep: true, Compaction: true, Handles: true},
 	"C15": {Handles: true},
 	"C09": {},
+	"C19": {CollEveryStep: true, StoreEveryStep: true, FinalReopen: true},
 }
 
 type runner func(t TB, p *Program)
